@@ -84,7 +84,9 @@ def anns_of(shape):
     if shape == "three_mixed":
         return {"AAAA": b"1", "BBBB": b"", "CCCC": b"\x00\xff" * 20}
     if shape == "memoryview":
-        return {"MEMV": memoryview(b"memoryview-data"), "ZERO": memoryview(b"")}
+        import array
+        # (views of bytes, and a view whose items are wider than a byte: its length in items is not its length in bytes)
+        return {"MEMV": memoryview(b"memoryview-data"), "ZERO": memoryview(b""), "WIDE": memoryview(array.array("I", [1, 2, 3]))}
     if shape == "bytearray":
         return {"BARR": bytearray(b"bytearray-data")}
     raise util.MachineryError(shape)
@@ -228,7 +230,7 @@ def run_case(protocol, socketutil, config, errors, case, idx, rng):
         if msg is not None:
             f = msg_fields(msg)
             exp = {"type": mtype, "flags": flags & ~(2 | 64), "seq": seq, "ser": ser, "data": bytes(payload),
-                   "ann": {k: bytes(v) for k, v in anns.items()}, "corr": corr.bytes if corr else f["corr"],
+                   "ann": {k: (v.tobytes() if isinstance(v, memoryview) else bytes(v)) for k, v in anns.items()}, "corr": corr.bytes if corr else f["corr"],
                    "hascorr": corr is not None or bool(flags & 64)}      # a caller-supplied correlation bit is outside the statement
             out["fields_ok"] = f == exp and (msg.flags & 2) == 0
             if not out["fields_ok"]:
